@@ -81,6 +81,7 @@ func modeClass(m uint32) string {
 
 // C02 — stored fields, ids and id lookup round-trip.
 func c02(c *Ctx) {
+	installValidator()
 	n := c.N(2400, 40000)
 	tallEvery := c.N(200, 250)
 	for i := 0; i < n; i++ {
@@ -101,6 +102,25 @@ func c02(c *Ctx) {
 		}
 		m := model.Build(b)
 		zx.SetChunkMode(mode)
+		if i%9 == 4 && len(b.Docs) > 0 {
+			// a batch the field validator rejects, then the corrected batch (another
+			// document order): the retry must show no trace of the rejected one
+			rb := &model.Batch{}
+			for k := len(b.Docs) - 1; k >= 0; k-- {
+				rb.Docs = append(rb.Docs, b.Docs[k])
+			}
+			d := rng.Intn(len(rb.Docs))
+			nd := rb.Docs[d]
+			nd.Fields = append(append([]model.FieldInst{}, nd.Fields...), model.FieldInst{Name: rejectField, Type: 't', Stored: true, Value: []byte("secret"), Len: 1, Toks: []model.Tok{{Term: "classified", Freq: 1}}})
+			rb.Docs[d] = nd
+			guard(c.R, id+" rejected build", func() {
+				if seg, _, err := zx.Build(rb); err == nil {
+					c.R.Fail("validator-ignored", "%s: the validator rejected a field but New succeeded", id)
+					seg.Close()
+				}
+			})
+			c.R.Inc("rejected_then_retry", 1)
+		}
 		guard(c.R, id, func() {
 			seg, _, err := zx.Build(b)
 			if err != nil {
